@@ -17,7 +17,7 @@ ASSUMPTIONS = ["counter modelled as a 20-bit integer with N <= 5000 calls in pro
 
 
 def tasks(tier, seed=0):
-    return [task(M, "ob_lock_coverage", "gcguard.lock_coverage/frame", ["C19"]),
+    return [task(M, "ob_lock_coverage", "gcguard.lock_coverage/frame", ["C19"], replay="vf.contracts.gcguard:replay_threads"),
             task(M, "ob_enter", "gcguard._enter_z3/invariant", ["C19"], replay="vf.contracts.gcguard:replay_transition"),
             task(M, "ob_exit", "gcguard._exit_z3/invariant", ["C19"], replay="vf.contracts.gcguard:replay_transition"),
-            task(M, "ob_condom", "gcguard.condom/balance", ["C19"])]
+            task(M, "ob_condom", "gcguard.condom/balance", ["C19"], replay="vf.contracts.gcguard:replay_threads")]
